@@ -434,7 +434,7 @@ def _history(case, ctx, res):
     res.digest_src = {"hist": case["i"]}
 
     def parts(o):
-        return [o] if type(o).__name__ == "Array" else list(o._xyz.values())
+        return [o] if type(o).__name__ == "Array" else [getattr(o, c_) for c_ in "xyz" if getattr(o, c_) is not None]
 
     def verify(label):
         out = attempt(lambda: obj.to(u2))
